@@ -58,6 +58,18 @@ TRUSTED = [
 ]
 ASSUMPTIONS = ["tree-shaped inputs: no mutable object occurs at two positions", "no nan/inf/-0.0", "0 <= threshold_to_diff_deeper <= 1"]
 
+# second tie between model and code (DESIGN.md section 4.5; coq/theories/DiffIO/NOTES_srctie.md): the pairing heuristic is
+# regenerated from /repo's current diff.py on every run and proved equal to the hand model of the selection (MemoPairs.v); the
+# validity of the pairing oracle is then a THEOREM about what the source computes, not only a run-time check of recorded pairings
+SOURCE_TIES = [{
+    "name": "iopairs", "translator": "iopairs", "gen_module": "DiffIOGen", "equiv": ["DiffIOGenEquiv"],
+    "needs": ["DiffIO.DiffIOSelect", "DiffIO.MemoPairsProofs", "Properties.C05"],
+    "sources": ["deepdiff/diff.py"],
+    "fragment": "diff.py: DeepDiff._get_most_in_common_pairs_in_iterables between the cache lookup and the cache write (double loop over "
+                "hashes_added x hashes_removed, loop detection, distance cut, most_in_common_pairs, distances_to_from_hashes, greedy "
+                "selection, symmetric closure); the rough distance is an oracle",
+}]
+
 HEADER = ("From DD Require Import Base.PyStr Base.Value Diff.Tree Diff.DiffModel Diff.DiffShow "
           "Hash.HashModel DiffIO.DiffIOModel DiffIO.DiffIOShow DiffIO.DiffIOMemo DiffIO.DiffIOMemoShow.\nLocal Open Scope Z_scope.")
 
@@ -1587,12 +1599,241 @@ def replay_witnesses(ctx):
     ctx.note("refuted_witnesses_replayed", w)
 
 
+# ---------------------------------------------------------------------------
+# source tie `iopairs`: hook of core.source_tie_step
+# ---------------------------------------------------------------------------
+
+TIE_PAIRS = []      # concrete (t1, t2) on which the regenerated selection deviates: head of the correspondence and of the oracle grid
+
+# pairing-rich inputs: several candidates per item, equal distances, more added than removed and vice versa, nested levels
+TIE_INPUTS = [
+    ([[1, 2, 3], [1, 2, 4]], [[1, 2, 5]]),
+    ([[1, 2, 5]], [[1, 2, 3], [1, 2, 4]]),
+    ([[1, 2, 3, 4], [5, 6, 7, 8]], [[5, 6, 7, 10], [1, 2, 3, 9]]),
+    ([[1, 2, 3, 4], [1, 2, 3, 5], [1, 2, 3, 6]], [[1, 2, 3, 7], [1, 2, 3, 8]]),
+    ([[1, 2, 3, 7], [1, 2, 3, 8]], [[1, 2, 3, 4], [1, 2, 3, 5], [1, 2, 3, 6]]),
+    ([{"a": 1, "b": 2, "c": 3}, {"a": 1, "b": 2, "c": 4}, 7], [{"a": 1, "b": 2, "c": 5}, 7, {"a": 1, "b": 9, "c": 9}]),
+    ([[1, 2, 3, 4, 5, 6], [10, 11, 12], [20, 21, 22, 23], "x"], [[20, 21, 22, 24], [1, 2, 3, 4, 5, 7], "x", [10, 11, 13], [30, 31]]),
+    ([[[1, 2, 3], [4, 5, 6]], [[7, 8, 9], [1, 1, 2]]], [[[7, 8, 0], [1, 1, 2]], [[1, 2, 3], [4, 5, 0]]]),
+    ([(1, 2, 3), (1, 2, 4), (9, 9, 9)], [(1, 2, 5), (1, 2, 6), (9, 9, 8)]),
+    ([{1, 2, 3}, {1, 2, 4}], [{1, 2, 5}, {1, 2, 6}, {1, 2, 7}]),
+    ([[1, 2, 3], [1, 2, 3], [1, 2, 4]], [[1, 2, 5], [1, 2, 5], [1, 2, 6], [1, 2, 6]]),
+]
+TIE_KNOBS = [dict(), dict(cutoff_distance_for_pairs=1, cutoff_intersection_for_pairs=1), dict(report_repetition=True, cutoff_intersection_for_pairs=1),
+             dict(cutoff_distance_for_pairs=0.05, cutoff_intersection_for_pairs=1)]
+
+_tie_tls = threading.local()
+
+
+def float_bits(x):
+    """the IEEE bit pattern of a non-negative distance as an int: orders like the float"""
+    import struct
+    f = float(x)
+    if f != f or f < 0:
+        return None
+    return struct.unpack(">q", struct.pack(">d", f + 0.0))[0]
+
+
+def install_tie_recorder():
+    """every call of _get_most_in_common_pairs_in_iterables (root and nested instances) made while a recording is active in this
+    thread: hashes_added, hashes_removed, the cut-off, every rough distance it obtained (computed, cached or pre-calculated by numpy),
+    the returned dictionary"""
+    from deepdiff.diff import DeepDiff
+    if getattr(DeepDiff, "_verif_tie_recorder", False):
+        return
+    orig_pairs = DeepDiff._get_most_in_common_pairs_in_iterables
+    orig_dist = DeepDiff._get_rough_distance_of_hashed_objs
+    orig_pre = getattr(DeepDiff, "_precalculate_numpy_arrays_distance", None)
+
+    def w_pairs(self, hashes_added, hashes_removed, *a, **k):
+        st = getattr(_tie_tls, "stack", None)
+        if st is None:
+            return orig_pairs(self, hashes_added, hashes_removed, *a, **k)
+        node = {"added": list(hashes_added), "removed": list(hashes_removed), "cutoff": self.cutoff_distance_for_pairs, "dist": {}, "pre": {}}
+        st.append(node)
+        try:
+            out = orig_pairs(self, hashes_added, hashes_removed, *a, **k)
+            node["items"] = list(out.items())
+            _tie_tls.calls.append(node)
+            return out
+        finally:
+            st.pop()
+
+    def w_dist(self, added_hash, removed_hash, *a, **k):
+        out = orig_dist(self, added_hash, removed_hash, *a, **k)
+        st = getattr(_tie_tls, "stack", None)
+        if st:
+            st[-1]["dist"][(added_hash, removed_hash)] = out
+        return out
+
+    def w_pre(self, *a, **k):
+        out = orig_pre(self, *a, **k)
+        st = getattr(_tie_tls, "stack", None)
+        if st and out:
+            st[-1]["pre"] = dict(out)
+        return out
+    DeepDiff._get_most_in_common_pairs_in_iterables = w_pairs
+    DeepDiff._get_rough_distance_of_hashed_objs = w_dist
+    if orig_pre is not None:
+        DeepDiff._precalculate_numpy_arrays_distance = w_pre
+    DeepDiff._verif_tie_recorder = True
+
+
+def tie_record(t1, t2, **kw):
+    """-> (recorded pairs calls, exception or None)"""
+    from deepdiff import DeepDiff
+    install_tie_recorder()
+    _tie_tls.stack, _tie_tls.calls = [], []
+    err = None
+    try:
+        DeepDiff(copy.deepcopy(t1), copy.deepcopy(t2), ignore_order=True, **kw)
+    except Exception as e:  # noqa
+        err = repr(e)
+    finally:
+        calls = _tie_tls.calls
+        _tie_tls.stack = None
+        _tie_tls.calls = None
+    return calls, err
+
+
+def _tie_call_case(n):
+    """one recorded call as a Coq `tie_case` expression (None when it has nothing to select from / a distance is not a number)"""
+    adds, rems = n["added"], n["removed"]
+    if not adds or not rems or "items" not in n:
+        return None
+    num = {h: k for k, h in enumerate(adds + [r for r in rems if r not in adds])}
+    tab = []
+    for a in adds:
+        for r in rems:
+            d = n["dist"].get((a, r))
+            if d is None:
+                d = n["pre"].get("{}--{}".format(a, r))
+            if d is None:
+                continue
+            b = float_bits(d)
+            if b is None:
+                return None
+            tab.append("(%d, %d, %d)" % (num[a], num[r], b))
+    cut = float_bits(n["cutoff"])
+    if cut is None or any(k not in num or v not in num for k, v in n["items"]):
+        return None
+    zl = lambda l: core.coq_list("%d" % num[h] for h in l)     # noqa
+    return "tie_case g__get_most_in_common_pairs_in_iterables %d %s %s %s %s" % (
+        cut, zl(adds), zl(rems), core.coq_list(tab), core.coq_list("(%d, %d)" % (num[k], num[v]) for k, v in n["items"]))
+
+
+def _tie_coq(ctx, name, body):
+    """compile one differencing file against the REGENERATED model of this run; returns the text between BEGIN / END or None"""
+    import os
+    import re
+    gen_dir = os.path.join(ctx.scratch, "srctie")
+    fn = os.path.join(gen_dir, name + ".v")
+    with open(fn, "w") as f:
+        f.write("From Coq Require Import List String ZArith NArith Bool.\nImport ListNotations.\n"
+                "From DD Require Import Base.Sx DiffIO.MemoPairs DiffIO.DiffIOSelect DiffIO.DiffIOSelectShow.\n"
+                "From DDGen Require Import DiffIOGen.\nLocal Open Scope Z_scope.\n" + body)
+    rc, out = core.sh(["coqc", "-Q", core.THEORIES, "DD", "-Q", gen_dir, "DDGen", fn], timeout=900, cwd=gen_dir)
+    m = re.search(r'"BEGIN\n(.*)END"', out, re.S)
+    if rc != 0 or not m:
+        return None, out[-800:]
+    return m.group(1).replace('""', '"'), None
+
+
+def on_source_tie_break(ctx, name, rec):
+    """core.source_tie_step calls this when the tie `iopairs` is not intact.  Search for a concrete input:
+    (1) the implementation's _get_most_in_common_pairs_in_iterables is RECORDED (hashes, every rough distance, the returned
+        dictionary; root and nested instances) on pairing-rich inputs (TIE_INPUTS, the module's near-duplicate record lists and
+        generated pairs, four knob settings);
+    (2) inside Coq, against the regenerated model: on every recorded distance table the generated selection must equal the hand
+        model's `select`, reproduce the recorded dictionary, and satisfy the hand predicate (symmetric partial injection between
+        added and removed hashes below the cut-off); plus a bounded-exhaustive sweep over all 2x3 / 3x2 / 3x3 distance tables;
+    (3) every input with a deviating call goes to TIE_PAIRS: run() puts those at the head of the full-result correspondence
+        (model with the recorded pairings vs implementation, recorded pairings valid) and of the direct oracle (verdict =
+        specification under the whole knob product, no exception, knob independence), where they are judged like any case."""
+    import os
+    out = {"tie_status": rec.get("status")}
+    gen_vo = os.path.join(ctx.scratch, "srctie", "DiffIOGen.vo")
+    if rec.get("status") in ("translator-rejected", "generated-model-does-not-compile") or not os.path.exists(gen_vo):
+        out["searched"] = ("nothing inside Coq: no generated model to evaluate (%s); the full-result correspondence and the oracle streams of this run "
+                           "use their thorough-size budgets and the pairing-rich inputs are added to both" % rec.get("status"))
+        TIE_PAIRS.extend(TIE_INPUTS)
+        return out
+    rc, blog = core.build_coq(target="theories/DiffIO/DiffIOSelectShow.vo")
+    if rc != 0:
+        out["searched"] = "nothing: DiffIOSelectShow.v does not build: " + blog[-300:]
+        TIE_PAIRS.extend(TIE_INPUTS)
+        return out
+    rng = random.Random(50505)
+    inputs = list(TIE_INPUTS)
+    for _ in range(10):        # near-duplicate record lists with two or three edits: several added and removed items per level
+        base = big_near_dups(rng)
+        other = rebuild(base, rng)
+        for _e in range(rng.choice([2, 3])):
+            other = io_edit(rng, other)[0]
+        inputs.append((base, other))
+    while len(inputs) < len(TIE_INPUTS) + 30:
+        a, b, _k = gen_pair(rng, alias=False, depth=3)
+        inputs.append((a, b))
+    cases, owner, errors = [], [], []
+    for idx, (a, b) in enumerate(inputs):
+        for kn in TIE_KNOBS:
+            calls, err = tie_record(a, b, **kn)
+            if err:
+                errors.append((idx, kn, err))
+            for n in calls:
+                e = _tie_call_case(n)
+                if e is not None:
+                    cases.append(e)
+                    owner.append((idx, kn, len(n["added"]), len(n["removed"])))
+    out["inputs_recorded"] = len(inputs)
+    out["pairs_calls_recorded"] = len(cases)
+    out["implementation_raised_on"] = len(errors)
+    body = ("Local Open Scope string_scope.\nDefinition cases : list (sx * sx) := [\n%s\n].\nEval vm_compute in run_cases cases.\n"
+            % ";\n".join('(%s,\n SL [SA "T"; SA "T"; SA "T"; SA "T"])' % e for e in cases))
+    syn = ("Local Open Scope string_scope.\nEval vm_compute in (\"BEGIN\" ++ nl ++ show_sx (SL ["
+           "sx_synthetic g__get_most_in_common_pairs_in_iterables 4%Z [0; 1]%Z [10; 11; 12]%Z [1; 2; 5]%Z; "
+           "sx_synthetic g__get_most_in_common_pairs_in_iterables 4%Z [0; 1; 2]%Z [10; 11]%Z [1; 2; 5]%Z; "
+           "sx_synthetic g__get_most_in_common_pairs_in_iterables 4%Z [0; 1; 2]%Z [10; 11; 12]%Z [1; 5]%Z]) ++ nl ++ \"END\").\n")
+    from concurrent.futures import ThreadPoolExecutor
+    with ThreadPoolExecutor(max_workers=2) as ex:
+        (ra, ea), (rb, eb) = ex.map(lambda x: _tie_coq(ctx, *x), [("search_recorded", body), ("search_synthetic", syn)])
+    out["synthetic_tables(2x3,3x2 over 3 distances; 3x3 over 2): [#generated<>hand, first, #predicate fails, first, witness]"] = \
+        rb.strip() if rb is not None else "the differencing file did not compile against the regenerated model: " + str(eb)
+    hit = []
+    if ra is None:
+        out["recorded_search"] = "the differencing file did not compile against the regenerated model: " + str(ea)
+        hit = [i for i, _k, _e in errors]
+    else:
+        devs = []
+        for line in ra.splitlines():
+            if line.strip():
+                i, _, txt = line.partition("\t")
+                devs.append((int(i), txt))
+        out["recorded_calls_deviating"] = len(devs)
+        out["deviations(first 5): [generated=hand, generated=recorded, predicate(generated), predicate(recorded)]"] = [
+            {"input": [repr(x) for x in inputs[owner[i][0]]], "knobs": owner[i][1], "added": owner[i][2], "removed": owner[i][3], "flags": txt}
+            for i, txt in devs[:5]]
+        hit = [owner[i][0] for i, _t in devs] + [i for i, _k, _e in errors]
+    seen_ = set()
+    for i in hit:
+        if i not in seen_:
+            seen_.add(i)
+            TIE_PAIRS.append(inputs[i])
+    del TIE_PAIRS[12:]
+    out["inputs_fed_to_correspondence_and_oracle"] = [[repr(a), repr(b)] for a, b in TIE_PAIRS]
+    if not TIE_PAIRS:
+        out["searched"] = ("%d recorded pairs calls on %d inputs and the bounded-exhaustive tables: the regenerated selection and the hand model "
+                           "agree on all of them; thorough-size budgets for this run" % (len(cases), len(inputs)))
+    return out
+
+
 def run(ctx):
     rng = ctx.rng
     sys.setrecursionlimit(10000)
-    n_full = 160 if ctx.thorough else 17
-    n_grid = 60 if ctx.thorough else 5
-    n_rand = 1500 if ctx.thorough else 180
+    escalate = ctx.thorough or ctx.tie_broken("iopairs")       # a broken source tie: thorough-size budgets for the streams that exercise the pairing
+    n_full = 160 if escalate else 17
+    n_grid = 60 if escalate else 5
+    n_rand = 1500 if escalate else 180
     replay_witnesses(ctx)
     gen = []
     while len(gen) < n_full + n_rand:
@@ -1604,6 +1845,7 @@ def run(ctx):
         for k in kinds or ["shuffle_only"]:
             ctx.count("edit:" + k.split(":")[0])
     full = list(FIXED_PAIRS) + [(a, b) for a, b, _k in gen[:n_full]]
+    full += [p for p in TIE_PAIRS]      # inputs found by on_source_tie_break (empty unless the source tie is broken)
     # inputs with ==-aliasing atoms: only the memo-threading model describes them
     alias_full = [(a, b) for a, b in FIXED_FINDINGS if V.contains_alias(a, b)] + list(ALIAS_FIXED)
     n_fixed_alias = len(alias_full)
@@ -1645,7 +1887,7 @@ def run(ctx):
         correspondence(ctx, full, pool)
         lap("correspondence")
         # --- direct oracle: the complete knob product on some pairs, a random slice of it on many
-        jobs = [(a, b, ALL_KNOBS) for a, b in FIXED_PAIRS[:4] + [(x, y) for x, y, _k in gen[:n_grid]]]
+        jobs = [(a, b, ALL_KNOBS) for a, b in list(TIE_PAIRS) + FIXED_PAIRS[:4] + [(x, y) for x, y, _k in gen[:n_grid]]]
         for a, b, _k in gen[n_grid:]:
             jobs.append((a, b, rng.sample(ALL_KNOBS, 24) + rng.sample(SHAPE_KNOBS, 2)))
         # guard-boundary inputs (aliasing atoms, tag-like strings): every failure must be a known finding
